@@ -28,7 +28,7 @@ class MHProposal(NamedTuple):
     position: Position
     log_correction: float
     """
-    Let :math:`q(x' | x)` be the prosal density, then :math:`log(q(x'|x) / q(x | x'))`
+    Let :math:`q(x' | x)` be the prosal density, then :math:`log(q(x | x') / q(x' | x))`
     is the log_mh_correction.
     """
 
